@@ -608,3 +608,43 @@ def subset_families():
         [T(), OP(223000), FIX(1, B()), OP(223255), OP(235000), T(12103), OP(232000), DEL(F31001(), B()), OP(232255)],
         [[2801, 0, 2790, 2750, 1, 0, 2740], [2801, 0, 2790, 2750, 1, 0, 2741]])
     return f
+
+
+# ---------------------------------------------------------------------------
+# the compiled path, concretely: TemplateCompiler.process_members -> statement tree -> process_statements on a fresh state
+class CompileInterp(PipeInterp):
+    def on_call(self, text, callee, args, kwargs, node, frame):
+        if text == 'get_func_name':
+            return frame.fi.name
+        return PipeInterp.on_call(self, text, callee, args, kwargs, node, frame)
+
+
+def compile_template(repo, members):
+    """Fold of CompilerState.__init__ and TemplateCompiler.process_members on a concrete template: (result, recorded statements)."""
+    cinit = repo.own_method('CompilerState', '__init__')
+    tg = Obj('TableGroupStub', {'key': 'TGKEY'})
+    tpl = Obj('BufrTemplate', {'members': list(members), 'id': 999999})
+    r0 = CompileInterp(repo, 'CompilerState').run_function(cinit, lambda: {'self': Obj('CompilerState', {}), cinit.params[1]: tg, cinit.params[2]: tpl},
+                                                            self_class='CompilerState')
+    ok0 = [r for r in r0 if r.ok and isinstance(r.locals['self'].fields.get('decoded_values_all_subsets'), list)]
+    if not ok0:
+        raise AnalysisError('pipeline fold: CompilerState.__init__ could not be folded: %s' % [r.describe() for r in r0])
+    st = ok0[0].locals['self']
+    fi = repo.method('TemplateCompiler', 'process_members')
+    res = CompileInterp(repo, 'TemplateCompiler').run_function(fi, lambda: {'self': Obj('TemplateCompiler', {}), 'state': st, 'bit_operator': None,
+                                                                           'members': list(members)}, self_class='TemplateCompiler')
+    if len(res) != 1:
+        raise AnalysisError('pipeline fold: TemplateCompiler.process_members forks into %d paths on a concrete template' % len(res))
+    stack = st.fields.get('block_stack')
+    if not (isinstance(stack, list) and stack and isinstance(stack[0], Obj) and isinstance(stack[0].fields.get('statements'), list)):
+        raise AnalysisError('pipeline fold: the compiler state keeps its statements in %r, not in block_stack[0].statements' % (stack,))
+    return res[0], stack[0].fields['statements']
+
+
+def replay(repo, statements, state, bit_operator, coder='Decoder'):
+    fi = repo.func('templatecompiler', 'process_statements')
+    res = CompileInterp(repo, coder).run_function(fi, lambda: {fi.params[0]: Obj(coder, {}), fi.params[1]: state, fi.params[2]: bit_operator,
+                                                              fi.params[3]: statements}, self_class=coder)
+    if len(res) != 1:
+        raise AnalysisError('pipeline fold: process_statements forks into %d paths on a concrete template and script' % len(res))
+    return res[0]
